@@ -33,13 +33,13 @@ mod verif_cex_freelist {
                 let lowest = (2u64..12).find(|q| run_in(&before, *q, n as u64));
                 let ok = match r {
                     Some(p) => {
-                        Some(p) == lowest
+                        run_in(&before, p, n as u64) && p > 1
                             && f.free_pages == before.iter().cloned().filter(|x| !(p <= *x && *x < p + n as u64)).collect()
                     }
                     None => lowest.is_none() && f.free_pages == before,
                 } && f.pending_pages == pend_before;
                 if !ok {
-                    println!("CEX Freelist::allocate: free set {:?}, num_pages {} -> returned {:?}, free set afterwards {:?}; expected the lowest run {:?} removed exactly", before, n, r, f.free_pages, lowest);
+                    println!("CEX Freelist::allocate: free set {:?}, num_pages {} -> returned {:?}, free set afterwards {:?}; expected some free run of that length removed exactly, or None only when there is none (lowest run: {:?})", before, n, r, f.free_pages, lowest);
                     panic!("contract of Freelist::allocate violated");
                 }
             }
